@@ -641,14 +641,117 @@ fn proxy_dealer_world(ctx: &mut Ctx) {
     ctx.check_panics();
 }
 
+/// A front-side client with an announced identity joins a second time under it (a restart, a
+/// fail-over twin) while the proxy is writing a large reply to its first connection, which is slow
+/// to read. Once that reply is through, what the client sends on its new connection comes back on
+/// its new connection: the proxy forwards every reply to the connection the request came from.
+fn proxy_client_rejoins(ctx: &mut Ctx) {
+    world::swarm(ctx, SwarmOpts { small_caps: false, tiny_chunks: false, ..Default::default() });
+    let big_len = ctx.plan_pick(&[20_000usize, 70_000, 200_000]);
+    let cap = ctx.plan_pick(&[256usize, 1_000, 9_000]);
+    let old_leaves = ctx.plan_bool();
+    let viol: Rc<RefCell<Vec<(&'static str, String)>>> = Rc::new(RefCell::new(Vec::new()));
+    let done = Rc::new(RefCell::new(false));
+    let proxy_result: Rc<RefCell<Option<String>>> = Rc::new(RefCell::new(None));
+    let (vl, dn, pr) = (viol.clone(), done.clone(), proxy_result.clone());
+    rt::task::spawn_local("main", async move {
+        let mut frontend = RouterSocket::new();
+        let mut backend = DealerSocket::new();
+        let fep = frontend.bind("tcp://127.0.0.1:0").await.expect("bind").to_string();
+        let bep = backend.bind("tcp://127.0.0.1:0").await.expect("bind").to_string();
+        rt::task::spawn_local("worker", async move {
+            let mut d = DealerSocket::new();
+            if d.connect(&bep).await.is_err() {
+                return world::park().await;
+            }
+            while let Ok(m) = d.recv().await {
+                if d.send(m).await.is_err() {
+                    break;
+                }
+            }
+            world::park().await;
+            drop(d);
+        });
+        rt::task::idle().await;
+        let pr2 = pr.clone();
+        rt::task::spawn_local("proxy", async move {
+            let r = proxy(frontend, backend, None).await;
+            *pr2.borrow_mut() = Some(match r {
+                Ok(()) => "Ok".to_string(),
+                Err(e) => e.to_string(),
+            });
+        });
+        // first connection: one small round trip, then a large one it is slow to read
+        let mut x1 = RawPeer::connect(&fep).expect("connect");
+        let _ = x1.hello("DEALER", Some(b"client-x")).await;
+        let _ = x1.send_msg(&tagged(1, 0, &[3])).await;
+        rt::task::idle().await;
+        if x1.inbound().messages().len() != 1 {
+            // (the ordinary worlds judge plain forwarding)
+            *dn.borrow_mut() = true;
+            return world::park().await;
+        }
+        x1.conn.set_auto_drain(1, false);
+        x1.conn.set_cap(1, cap);
+        let _ = x1.send_msg(&tagged(1, 1, &[big_len])).await;
+        rt::task::idle().await;
+        // the client joins again under its identity while that reply is stuck
+        let mut x2 = RawPeer::connect(&fep).expect("connect");
+        let _ = x2.hello("DEALER", Some(b"client-x")).await;
+        rt::task::idle().await;
+        rt::count("probe_proxy_client_rejoined_while_its_reply_was_blocked");
+        x1.conn.set_cap(1, 1 << 40);
+        x1.conn.set_auto_drain(1, true);
+        rt::task::idle().await;
+        let old_conn = x1.conn.clone();
+        let old_before = x1.inbound().messages().len();
+        let mut x1 = Some(x1);
+        if old_leaves {
+            x1.take().unwrap().close();
+            rt::task::idle().await;
+        }
+        // a request on the new connection
+        let ping = tagged(2, 0, &[4]);
+        let before = x2.inbound().messages().len();
+        let _ = x2.send_msg(&ping).await;
+        rt::task::idle().await;
+        let got = x2.inbound().messages();
+        let old_after = rc::parse_stream(&old_conn.tap_from(1)).messages().len();
+        if got.len() != before + 1 || got.last() != Some(&ping) || old_after != old_before {
+            vl.borrow_mut().push(("reply_not_on_the_connection_that_asked", format!("a client joined again under its identity while the proxy was writing a reply of {big_len} bytes to its first connection (which accepted {cap} bytes at the time); the reply went through, {}; a message then sent on the new connection came back on the new connection {} time(s) and on the old one {} time(s) (proxy: {:?})", if old_leaves { "the first connection was closed" } else { "both connections stay open" }, got.len() - before, old_after - old_before, pr.borrow())));
+        }
+        *dn.borrow_mut() = true;
+        world::park().await;
+        drop(x1);
+        drop(x2);
+    });
+    let end = ctx.sim.run(600_000);
+    if end == rt::RunEnd::Budget {
+        ctx.violation("no_quiescence", "proxy with a client that rejoins: no quiescence".into());
+    }
+    ctx.check_panics();
+    for (c, d) in viol.borrow().clone() {
+        ctx.violation(c, d);
+    }
+    if *done.borrow() {
+        ctx.nontrivial();
+    } else if end == rt::RunEnd::Quiescent && ctx.sim.rt.panics.borrow().is_empty() && viol.borrow().is_empty() {
+        ctx.violation("stuck", "proxy with a client that rejoins: the scenario never completed".into());
+    }
+    if ctx.want_sample {
+        ctx.out.sample = Some(format!("ROUTER | proxy | DEALER with an echo worker; client 'client-x' rejoins while a reply of {big_len} bytes to its first connection is blocked"));
+    }
+}
+
 pub fn def() -> PropDef {
     PropDef {
         id: "C15",
         level: "exploration",
-        rule: "one case = REQ clients (1..3, real sockets or scripted) - ROUTER | proxy() | DEALER - REP workers (1..3, real or scripted echo), capture socket kind walked by the case index {none, PUSH, PUB, DEALER} connected to a scripted sink; 1..4 lock-step round trips per client with drawn payload shapes; transport, schedule and select! order drawn per case; every worker admitted before the first request (one case in ten: workers arrive only after the first requests - the proxy may stop with the error, but if it keeps running nothing may be lost); oracles on connection taps; proxy_dealer_world: the same proxy with 1..3 DEALER clients (real or scripted) that pipeline 1..5 (one case in twelve: 130..330, back to back) delimiter-less messages of 1..3 frames (a single frame becomes the two-frame [identity, content] on the ROUTER side) to 1..2 DEALER echo workers: every message comes back to its sender verbatim and exactly once (in order with one worker), reaches the workers as identity + verbatim frames in per-client order, capture gets one copy per forwarded message; non-trivial = judgement reached with proxy still running; distinct = distinct (plan, schedule, transport+select) hashes",
+        rule: "one case = REQ clients (1..3, real sockets or scripted) - ROUTER | proxy() | DEALER - REP workers (1..3, real or scripted echo), capture socket kind walked by the case index {none, PUSH, PUB, DEALER} connected to a scripted sink; 1..4 lock-step round trips per client with drawn payload shapes; transport, schedule and select! order drawn per case; every worker admitted before the first request (one case in ten: workers arrive only after the first requests - the proxy may stop with the error, but if it keeps running nothing may be lost); oracles on connection taps; proxy_dealer_world: the same proxy with 1..3 DEALER clients (real or scripted) that pipeline 1..5 (one case in twelve: 130..330, back to back) delimiter-less messages of 1..3 frames (a single frame becomes the two-frame [identity, content] on the ROUTER side) to 1..2 DEALER echo workers: every message comes back to its sender verbatim and exactly once (in order with one worker), reaches the workers as identity + verbatim frames in per-client order, capture gets one copy per forwarded message; proxy_client_rejoins: one DEALER echo worker, one scripted client with an announced identity that joins a second time under it while a reply of 20..200 kB to its first connection (accepting 256..9000 bytes) is blocked; after the reply is through, a message sent on the new connection must come back on the new connection only; non-trivial = judgement reached with proxy still running; distinct = distinct (plan, schedule, transport+select) hashes",
         assumptions: &["clients and workers do not depart during a run (proxy() returns on the first send error, and the statement speaks about the time while a proxy runs)", "the capture sink accepts every write"],
         strata: vec![
             Stratum { name: "proxy_world", quick: 60_000, thorough: (1_000_000) * 2, exhaustive: (false, false), run: proxy_world, what: "REQ - ROUTER/proxy/DEALER - REP chain with capture, verbatim forwarding on taps" },
+            Stratum { name: "proxy_client_rejoins", quick: 6_000, thorough: 300_000, exhaustive: (false, false), run: proxy_client_rejoins, what: "a front-side client with an announced identity joins again under it while a large reply to its slow first connection is being written; afterwards a message on the new connection comes back on the new connection" },
             Stratum { name: "proxy_dealer_world", quick: 40_000, thorough: 1_500_000, exhaustive: (false, false), run: proxy_dealer_world, what: "DEALER clients pipelining delimiter-less messages (single-frame included) through ROUTER/proxy/DEALER to DEALER echo workers" },
         ],
     }
